@@ -1,7 +1,7 @@
 import pyparsing as pp
 
 from .common import _
-from .common import _c
+from .common import comment
 from .common import c
 from .common import n
 from .common import note
@@ -96,6 +96,10 @@ column_settings_with_properties.set_parse_action(parse_column_settings)
 
 constraint = pp.CaselessLiteral("unique") | pp.CaselessLiteral("pk")
 
+# Comments above the column. They are grouped under a single name: inside a table the column
+# carries a results name itself, and pyparsing then keeps only the last of repeated named matches.
+_c = pp.Group((pp.Suppress('\n') | comment)[...])('comment_before')
+
 table_column = _c + (
     name('name')
     + column_type('type')
@@ -133,9 +137,8 @@ def parse_column(s, loc, tok):
     # comments after column definition have priority
     if 'comment' in tok:
         init_dict['comment'] = tok['comment'][0]
-    if 'comment' not in init_dict and 'comment_before' in tok:
-        comment = '\n'.join(c[0] for c in tok['comment_before'])
-        init_dict['comment'] = comment
+    if 'comment' not in init_dict and tok.get('comment_before'):
+        init_dict['comment'] = '\n'.join(tok['comment_before'])
 
     return ColumnBlueprint(**init_dict)
 
